@@ -241,7 +241,9 @@ def escalate(pr, key, open_bufs, history_log, fresh_answer, edited_answer):
         ea = {json.dumps(x, sort_keys=True) for x in edited_answers}
         if len(fa) == 1 and len(ea) == 1 and fa != ea:
             return "history"
-        return "noise"
+        if len(fa) > 1:
+            return "nondeterministic"            # identical fresh servers disagree with each other
+        return "nondeterministic-after-history"  # replays of one and the same history disagree with each other
     finally:
         for s_ in servers:
             s_.kill()
@@ -367,8 +369,11 @@ def run_history(acc, rng, hist_seed):
                 a, b, e = normalise(ba.get(key)), normalise(bb.get(key)), normalise(edited[key])
                 acc.count("battery_answers_compared")
                 if a != b:
-                    acc.count("fresh_servers_disagree(noise, see C10/C16)")
-                    continue
+                    # two servers that were given exactly the same buffers: the answer is not a function of the buffers
+                    acc.violation("nondeterministic|%s" % key.split(" ")[0].split("/")[-1],
+                                  "%s: two fresh servers with the same buffers answer %s and %s" % (key, str(a)[:200], str(b)[:200]),
+                                  {"disk": disk, "open_buffers": open_bufs, "query": key, "fresh_1": a, "fresh_2": b})
+                    return
                 if "<no answer>" in (a, e):
                     if e == "<no answer>" and a != "<no answer>":
                         acc.violation("server-died|battery|%s" % key.split(" ")[0].split("/")[-1], "edited server gave no answer to %s" % key, {"disk": disk, "open_buffers": open_bufs, "events": events})
@@ -379,8 +384,10 @@ def run_history(acc, rng, hist_seed):
                     # replays of the whole history answer the same query.
                     verdict = escalate(pr, key, open_bufs, history_log, a, e)
                     if verdict != "history":
-                        acc.count("disagreements_classified_as_noise")
-                        continue
+                        acc.violation("%s|%s" % (verdict, key.split(" ")[0].split("/")[-1]),
+                                      "%s: the same buffers do not always get the same answer (edited server %s, fresh servers %s)" % (key, str(e)[:200], str(a)[:200]),
+                                      {"disk": disk, "open_buffers": open_bufs, "events": events, "query": key, "edited": e, "fresh": a})
+                        return
                     acc.violation("history-dependence|%s|%s" % (key.split(" ")[0].split("/")[-1], "+".join(sorted(flags)) or "plain-edits"),
                                   "%s: edited server answers %s, fresh servers answer %s" % (key, str(e)[:200], str(a)[:200]),
                                   {"disk": disk, "open_buffers": open_bufs, "events": events, "query": key, "edited": e, "fresh": a})
@@ -390,14 +397,16 @@ def run_history(acc, rng, hist_seed):
             for name in (sorted(set(edited_diags) | set(da) | set(db)) if open_bufs else []):
                 a, b, e = da.get(name, []), db.get(name, []), edited_diags.get(name, [])
                 if a != b:
-                    acc.count("fresh_servers_disagree(noise, see C10/C16)")
-                    continue
+                    acc.violation("nondeterministic|publishDiagnostics", "two fresh servers with the same buffers publish %s and %s for %s" % (str(a)[:200], str(b)[:200], name),
+                                  {"disk": disk, "open_buffers": open_bufs, "file": name, "fresh_1": a, "fresh_2": b})
+                    return
                 acc.count("diagnostic_sets_compared")
                 if a != e:
                     verdict = escalate(pr, "publishDiagnostics " + name, open_bufs, history_log, a, e)
                     if verdict != "history":
-                        acc.count("disagreements_classified_as_noise")
-                        continue
+                        acc.violation("%s|publishDiagnostics" % verdict, "diagnostics for %s are not always the same for the same buffers (edited server %s, fresh servers %s)" % (name, str(e)[:200], str(a)[:200]),
+                                      {"disk": disk, "open_buffers": open_bufs, "events": events, "file": name, "edited": e, "fresh": a})
+                        return
                     acc.violation("history-dependence|publishDiagnostics|%s" % ("+".join(sorted(flags)) or "plain-edits"),
                                   "diagnostics last published for %s: edited server %s, fresh servers %s" % (name, str(e)[:200], str(a)[:200]),
                                   {"disk": disk, "open_buffers": open_bufs, "events": events, "file": name, "edited": e, "fresh": a})
@@ -435,6 +444,8 @@ def main(tier, seed):
              "project. (1) every request must be answered and the process stay alive; (2) every returned range must lie inside its "
              "document and semantic tokens be sorted, non-overlapping, non-empty; (3) at the end a battery of queries (all document and "
              "position requests at 10 identifier positions per file, workspace symbols, last published diagnostics) is put to the edited "
-             "server and to two fresh servers given only the open buffers: where the two fresh servers agree with each other the edited "
-             "server must agree too. Non-trivial = distinct history whose battery agreed.",
-        assumptions=["set-valued answers are compared as sorted multisets; a query on which the two fresh servers disagree is noise and not charged to history"])
+             "server and to two fresh servers given only the open buffers: the two fresh servers must agree with each other (else the "
+             "answer is nondeterministic) and the edited server must agree with them; a disagreement is re-examined with three more fresh "
+             "servers and two replays of the whole history to tell history dependence from nondeterminism. Non-trivial = distinct "
+             "history whose battery agreed.",
+        assumptions=["set-valued answers are compared as sorted multisets; a query on which two fresh servers with identical buffers disagree is reported as nondeterminism (the answer is then not a function of the buffers either)"])
